@@ -101,7 +101,13 @@ def _sim_history(c, K, recount=True, coherence=False):
     package processing, fills, cancels, runner removal"""
     multi = c.choose("multi_order_trades", [False, True])
     max_l = c.choose("max_live_trade_count", [1, 2])
-    fl, (client,), (strategy,) = cm.new_sim(strategy_kwargs=dict(multi_order_trades=multi, max_live_trade_count=max_l, max_trade_count=3))
+    if coherence:
+        fl, (client0, client), (strategy,) = cm.new_sim(n_clients=2, strategy_kwargs=dict(multi_order_trades=multi, max_live_trade_count=max_l, max_trade_count=3))
+        use = c.choose("placing_client", ["default", "second"])
+        if use == "default":
+            client = client0
+    else:
+        fl, (client,), (strategy,) = cm.new_sim(strategy_kwargs=dict(multi_order_trades=multi, max_live_trade_count=max_l, max_trade_count=3))
     mw = fl._market_middleware[0]
     bk = cm.book([cm.runner(1, atb=[{"price": 1.5, "size": 100.0}], atl=[{"price": 4.0, "size": 100.0}]), cm.runner(2)], version=7)
     market = cm.add_market(fl, bk)
@@ -110,7 +116,7 @@ def _sim_history(c, K, recount=True, coherence=False):
     if c.choose("start_with_resting_order", [False, True]):
         # history prefix summarised: one order of an earlier trade already rests executable at the exchange
         o0, _ = ss.resting_limit(c, "seed", fl, market, strategy, 90, status=S.EXECUTABLE, price=2.0, persistence="LAPSE", max_frags=0,
-                                 allow_cancelled=False, side="BACK")
+                                 allow_cancelled=False, side="BACK", client=client)
         c.assume(o0.order_type.size >= 2)
         c.assume(o0.order_type.size <= 100)
         placed.append(o0)
@@ -130,13 +136,13 @@ def _sim_history(c, K, recount=True, coherence=False):
                     o = tr.create_order("BACK", cm.LimitOrder(2.0, 5.0))
                     if act == "place-in-with-trade":
                         with tr:
-                            ok = market.place_order(o)
+                            ok = market.place_order(o, client=client)
                             o2 = tr.create_order("LAY", cm.LimitOrder(3.0, 5.0))
-                            ok2 = market.place_order(o2)
+                            ok2 = market.place_order(o2, client=client)
                             if ok2:
                                 placed.append(o2)
                     else:
-                        ok = market.place_order(o)
+                        ok = market.place_order(o, client=client)
                     if ok:
                         placed.append(o)
                         if tr not in trades:
@@ -180,6 +186,10 @@ def _sim_history(c, K, recount=True, coherence=False):
                 lc.blotter_coherence(c, market, list(market.blotter), tag="step%d" % k)
                 for o in placed:
                     c.ob("step%d.placed-order-in-blotter" % k, o.id in market.blotter and market.blotter[o.id] is o)
+                for o in market.blotter:
+                    # every order (also a replacement created by the execution layer) belongs to the client that placed its trade
+                    c.ob("step%d.order-listed-under-placing-client" % k, o.client is client and any(x is o for x in market.blotter._client_orders[client]),
+                         client=getattr(o.client, "username", None))
     # not locked out: all orders complete => a fresh trade is accepted again (no cool-down configured)
     if recount and placed and all(o.complete for o in market.blotter):
         rc = strategy.get_runner_context(cm.MID, 1, 0)
@@ -246,7 +256,37 @@ def h10b_sim2(c, n=2):
         c.cover("handled")
 
 
+def h10d(c):
+    """live, async placement: the REST answer carries no bet id; the first order-stream message for the bet says EXECUTABLE or
+    already EXECUTION_COMPLETE (fully matched / killed before the first update); recount afterwards"""
+    with cm.config_set(simulated=False, async_place_orders=True):
+        ex = lc.ExchangeDouble()
+        fl, client, (strategy,) = cm.new_live(exchange=ex, strategy_kwargs=dict(max_live_trade_count=1))
+        market = fl._add_market(cm.MID, cm.book([cm.runner(1), cm.runner(2)], version=7))
+        ex.script["place"] = lambda ins, attempt: lc.response(place_instruction_reports=[lc.place_report("SUCCESS", "PENDING", None) for _ in ins])
+        o = cm.mk_limit(strategy, "BACK", 2.0, 10.0)
+        with c.guard("place"):
+            ok = market.place_order(o)
+        c.ob("async.accepted-and-pending", ok is True and o.status == S.PENDING and o.bet_id is None)
+        first = c.choose("first_stream_status", ["EXECUTABLE", "EXECUTION_COMPLETE", "EXPIRED"])
+        matched = 10.0 if first == "EXECUTION_COMPLETE" else 0.0
+        co = cm.current_order(o.customer_order_ref, "4711", size=10.0, status=first, size_matched=matched, size_remaining=10.0 if first == "EXECUTABLE" else 0.0,
+                              average_price_matched=2.0 if matched else 0.0, size_lapsed=10.0 if first == "EXPIRED" else 0.0)
+        with c.guard("stream"):
+            fl._process_current_orders(cm.current_orders_event(client, [co]))
+        c.ob("async.bet-id-picked-up", o.bet_id == "4711")
+        c.ob("async.status-follows-stream", o.status == (S.EXECUTABLE if first == "EXECUTABLE" else S.EXECUTION_COMPLETE), status=o.status.name)
+        lc.recount_runner_context(c, strategy, market)
+        if first != "EXECUTABLE":
+            rc = strategy.get_runner_context(*o.lookup)
+            probe = Trade(cm.MID, 1, 0, strategy).create_order("BACK", cm.LimitOrder(2.0, 5.0))
+            c.ob("async.not-locked-out-after-complete", strategy.validate_order(rc, probe) is True)
+            c.cover("complete-on-first-message")
+        c.cover("async")
+
+
 HARNESSES = [
+    Harness("H10d", h10d, pattern="P3 short history", requires=["async", "complete-on-first-message"]),
     Harness("H10a", h10a, pattern="P1 kernel-with-oracle", clock_modules=("flumine.strategy.runnercontext",), requires=["accepted", "refused"]),
     Harness("H10b-sim", h10b_sim2, quick=dict(n=2), pattern="P2 inductive step", requires=["handled"]),
     Harness("H10b-live", h10b_live, quick=dict(n=1), thorough=dict(n=2), pattern="P5 + recount", requires=["handled"], max_paths=(300000, 3000000)),
